@@ -2072,6 +2072,38 @@ def descriptor_model(repo):
                             % ('class' if parent is cls_scope else 'module', label, 'the value its getter returns (attribute access '
                                'through the descriptor)' if want_value else 'the function object', detail),
                             '%s -> %s' % (label, 'getter value' if want_value else 'function')))
+            # the first parameter of a function written in a class body: the instance - except under @staticmethod, where it
+            # is an ordinary argument (under @classmethod it is the class: the instance's attributes are a superset, accepted)
+            inst = st.obj('InstanceValue', 'instance of the class')
+            klass = st.obj('ClassObject', 'the class', call=Native('call', lambda i2, a2, k2: inst))
+            cls_scope2 = st.obj('ClassScope', 'class body', resolve=Native('resolve', lambda i2, a2, k2: klass))
+            cm = st.obj('RuntimeName', 'builtin classmethod', name='classmethod', is_builtin=True)
+            for label, parent, decos, want in (('no decorator', cls_scope2, [], 'instance'), ('@staticmethod', cls_scope2, [other_builtin], None),
+                                               ('@property', cls_scope2, [prop], 'instance'), ('@classmethod', cls_scope2, [cm], 'instance or class'),
+                                               ('a plain decorator class', cls_scope2, [plain], 'instance'),
+                                               ('no decorator, module level', mod_scope, [], None)):
+                vals, nodes = {}, []
+                for i, d in enumerate(decos):
+                    nd = st.obj(None, 'decorator %d' % i)
+                    nd.astcls = 'Name'
+                    vals[nd.oid] = d
+                    nodes.append(nd)
+                ctx = st.obj(None, 'ctx', evaluate=Native('evaluate', lambda i2, a2, k2, _v=vals: _v.get(a2[0].oid)))
+                ms = st.obj('FuncScope', 'method', parent=parent, decorator_list=nodes, name='meth')
+                arg0 = st.obj('ArgumentName', 'first parameter', idx=[0], name='self', func=ms)
+                arg1 = st.obj('ArgumentName', 'second parameter', idx=[1], name='other', func=ms)
+                try:
+                    r0 = it.call(it.getattr(ms, 'get_argument'), [ctx, arg0], {})
+                    r1 = it.call(it.getattr(ms, 'get_argument'), [ctx, arg1], {})
+                    ok = r1 is None and ((want is None and r0 is None) or (want == 'instance' and r0 is inst) or
+                                         (want == 'instance or class' and (r0 is inst or r0 is klass)))
+                    detail = 'first parameter -> %r, second -> %r' % (r0, r1)
+                except InterpRaise as e:
+                    ok, detail = False, 'raises %s' % e
+                out.append(('first-param', 'first parameter of a function under %s' % label, ok,
+                            'the first parameter of a function (%s) must evaluate to %s, any other parameter to nothing; %s: with a static '
+                            'method taken for an instance method, `target.x = 1` inside it becomes an instance attribute of the class and wins '
+                            'over the class attribute x' % (label, want or 'nothing', detail), '%s -> %s' % (label, want)))
         finally:
             if saved is not None:
                 env['FuncObject'] = saved
@@ -2129,3 +2161,58 @@ def list_packages_model(repo):
                             'list_packages(%r) gives identifiers' % root))
         return out
     return repo.memo('list-packages-model', build)
+
+
+# ---------------------------------------------------------------------------
+# the unit of columns
+# ---------------------------------------------------------------------------
+
+COLUMN_TEXTS = [
+    u"s = '\u00e4\u00f6\u00fc'; name = 1\n",
+    u"def f(\u03b1, beta):\n    return [\u03b1 for gamma in beta if '\u00e9' in gamma]\n",
+    u"x = '\U0001f600'; import os as operating\nprint('\u00df', x, operating)\n",
+    u"plain = 1; ascii_only = plain\n",
+]
+
+
+def column_unit_model(repo):
+    """supp's own Source(text).tree interpreted with the real parser on texts that hold non-ASCII characters in front of
+    identifiers: cursor positions, reported positions and the text search index the *characters* of source.lines, the parser
+    counts UTF-8 *bytes* - the tree supp analyses must have its columns in characters (every Name and every parameter must sit
+    at its column of the line)."""
+    def build():
+        import ast as _ast
+        UTIL = 'supp/util.py'
+        facts = get_facts(repo)
+        out = []
+        for text in COLUMN_TEXTS:
+            it = Interp(repo, facts)
+            it.memoise_cached = True
+            it.reset_path([])
+            env = it.module_env(UTIL)
+            env['parse'] = Native('ast.parse', lambda i2, a, k: _ast.parse(a[0]))
+            try:
+                src = it.call(it.lookup_global(UTIL, 'Source'), [text, '/p/t.py'], {})
+                tree = it.getattr(src, 'tree')
+                lines = it.getattr(src, 'lines')
+            except InterpRaise as e:
+                out.append(('columns', 'columns of %r' % text.splitlines()[0], False, 'Source(text).tree raises %s' % e, None))
+                continue
+            except Uninterpretable as e:
+                raise AnalysisError('Source.tree is outside the interpretable subset: %s' % e)
+            bad = []
+            for n in _ast.walk(tree):
+                ident = n.id if isinstance(n, _ast.Name) else n.arg if isinstance(n, _ast.arg) else None
+                if ident is None:
+                    continue
+                line = lines[n.lineno - 1]
+                if line[n.col_offset:n.col_offset + len(ident)] != ident:
+                    bad.append('%s at (%d, %d) where the line reads %r' % (ident, n.lineno, n.col_offset,
+                                                                            line[n.col_offset:n.col_offset + len(ident)]))
+            out.append(('columns', 'columns of %r index the characters of the line' % text.splitlines()[0], not bad,
+                        'the tree supp analyses positions %s: the parser counts UTF-8 bytes, while the cursor position (`line[:col]`), the '
+                        'text search and the editor count characters - with non-ASCII text earlier on the line bindings become visible '
+                        'at the wrong column, reported positions miss their identifier' % '; '.join(bad[:3]),
+                        'every identifier of %r sits at its reported column' % text.splitlines()[0]))
+        return out
+    return repo.memo('column-unit-model', build)
